@@ -126,18 +126,41 @@ class _Builder:
         return co is not None and co.is_coroutine
 
     # ---- copying a callee
-    def _copy(self, callee, lmap_special=None):
+    @staticmethod
+    def _generic_subst(callee, call_term):
+        """{generic parameter name: argument text} for this call (const generics and type parameters), from the
+        callee's parameter names and the call's generic arguments"""
+        gn = callee.j.get("generics") or []
+        ga = (call_term or {}).get("gargs") or []
+        if not gn or len(gn) != len(ga):
+            return {}
+        return {n: a for n, a in zip(gn, ga) if n and not n.startswith("'") and n != a and re.match(r"^[A-Za-z_][A-Za-z_0-9]*$", n)}
+
+    @staticmethod
+    def _apply_subst(x, sub):
+        if not sub:
+            return x
+        pat = re.compile(r"\b(%s)\b" % "|".join(re.escape(k) for k in sorted(sub, key=len, reverse=True)))
+        rep = lambda m: sub[m.group(1)]
+
+        def walk(v):
+            if isinstance(v, dict):
+                return {k: (pat.sub(rep, vv) if k in ("ty", "n") and isinstance(vv, str) else walk(vv)) for k, vv in v.items()}
+            if isinstance(v, list):
+                return [walk(y) for y in v]
+            return v
+        return walk(x)
+
+    def _copy(self, callee, lmap_special=None, call_term=None):
         """append callee's locals/blocks/promoted; -> (local map fn, block map fn, list of new block ids)"""
+        sub = self._generic_subst(callee, call_term)
         j = self.j
         loff = len(j["locals"])
         boff = len(j["blocks"])
         poff = len(j.get("promoted", []))
         cj = callee.j
         for l in cj["locals"]:
-            l2 = dict(l)
-            if l2.get("name"):
-                l2["name"] = l2["name"]
-            j["locals"].append(l2)
+            j["locals"].append(self._apply_subst(dict(l), sub))
         if cj.get("promoted"):
             j.setdefault("promoted", [])
             j["promoted"] += copy.deepcopy(cj["promoted"])
@@ -145,8 +168,8 @@ class _Builder:
         bmap = lambda b: boff + b
         new = []
         for cb in cj["blocks"]:
-            nb = {"cleanup": cb["cleanup"], "stmts": [_remap(s, lmap, bmap, poff) for s in cb["stmts"]], "term": _remap_term(cb["term"], lmap, bmap, poff),
-                  "file": callee.file, "from": callee.path}
+            nb = {"cleanup": cb["cleanup"], "stmts": [self._apply_subst(_remap(s, lmap, bmap, poff), sub) for s in cb["stmts"]],
+                  "term": self._apply_subst(_remap_term(cb["term"], lmap, bmap, poff), sub), "file": callee.file, "from": callee.path}
             for k in cb:
                 if k not in nb:
                     nb[k] = copy.deepcopy(cb[k])
@@ -159,7 +182,7 @@ class _Builder:
         t = blk["term"]
         if t.get("t") is None or len(t["args"]) != callee.arg_count:
             return None
-        lmap, bmap, new, poff = self._copy(callee)
+        lmap, bmap, new, poff = self._copy(callee, call_term=t)
         line = t.get("line", 0)
         for i, a in enumerate(t["args"]):
             blk["stmts"].append(_assign(_place(lmap(i + 1)), {"k": "use", "op": a}, line))
